@@ -45,7 +45,7 @@ func ruleDiskWriterFlags(c *Ctx, rule string) {
 			continue
 		}
 		n++
-		fl, ok := constInt(ci.Arg(1))
+		fl, may, ok := flagBits(ci.Arg(1), 0)
 		trunc, _ := osConst(c.P, "O_TRUNC")
 		create, _ := osConst(c.P, "O_CREATE")
 		wr, _ := osConst(c.P, "O_WRONLY")
@@ -64,7 +64,7 @@ func ruleDiskWriterFlags(c *Ctx, rule string) {
 			if fl&(wr|rw) == 0 {
 				missing = append(missing, "a write mode")
 			}
-			if fl&app != 0 {
+			if may&app != 0 {
 				missing = append(missing, "no O_APPEND")
 			}
 		}
@@ -150,7 +150,7 @@ func ruleStreamCopy(c *Ctx, rule string, f *ssa.Function) {
 	why := ""
 	if len(copyErr) == 0 {
 		ok, why = false, "the error of io.Copy is dropped"
-	} else if !failingEdgeAlwaysReturns(f, copyErr[0]) {
+	} else if !failingEdgeAlwaysReturns(f, copyErr[0]) && !accumulatedAndReported(f, copyErr[0]) {
 		ok, why = false, "the error of io.Copy is not tested with its failing edge returning"
 	}
 	if ok && closeW == nil {
@@ -195,6 +195,12 @@ func ruleStreamCopy(c *Ctx, rule string, f *ssa.Function) {
 			default:
 				if facts.KnownNil(r.Block(), v, false) {
 					continue // a tested, non-nil error
+				}
+				// the aggregate of a list that collected both errors
+				if call, isCall := v.(*ssa.Call); isCall && isErrAggregator(call.Call.StaticCallee()) &&
+					(copyNil || collectedWhenFailing(f, copyErr[0], call.Call.Args[0], 0, map[ssa.Value]bool{})) &&
+					(closeNil || collectedWhenFailing(f, closeW, call.Call.Args[0], 0, map[ssa.Value]bool{})) {
+					continue
 				}
 				if !(copyNil && closeNil) {
 					ok, why = false, "a possibly-nil value is returned at "+c.pos(r.Pos())+" without both errors being established nil"
@@ -309,6 +315,10 @@ func rulesC04(c *Ctx) {
 							if facts.KnownNil(r.Block(), ev, false) || rv == ssa.Value(call) {
 								okE = true
 							}
+						}
+						// an error built on the failing edge (a wrapper naming the node)
+						if facts.KnownNil(r.Block(), ev, false) && isNonNilErrValue(rv, 0) {
+							okE = true
 						}
 					}
 				}
